@@ -56,11 +56,29 @@ fn main() {
     let log = PathBuf::from(std::env::var_os("VSTUB_LOG").expect("VSTUB_LOG"));
     let n = next_counter(&state);
     let fail_at: Option<u64> = std::env::var("VSTUB_FAIL_AT").ok().and_then(|s| s.parse().ok());
-    let a: Vec<String> = args[1..].iter().map(|s| latin1(s.as_bytes())).collect();
+    let raw: Vec<String> = args[1..].iter().map(|s| latin1(s.as_bytes())).collect();
+    // docker's management-command spellings are the same commands: `container rm` = `rm`, `image rm` = `rmi`, ...
+    let mut a = raw.clone();
+    if prog == "docker" && a.len() >= 2 {
+        match (a[0].as_str(), a[1].as_str()) {
+            ("container", "rm" | "remove") => {
+                a.remove(0);
+                a[0] = "rm".into();
+            }
+            ("container", "run" | "exec" | "logs" | "port" | "stop" | "kill" | "wait" | "inspect") => {
+                a.remove(0);
+            }
+            ("image", "rm" | "remove") => {
+                a.remove(0);
+                a[0] = "rmi".into();
+            }
+            _ => {}
+        }
+    }
     let mut failed = fail_at == Some(n);
     let mut extra = serde_json::Map::new();
     let sub = a.first().map(String::as_str).unwrap_or("");
-    let is_flag = |s: &String| s.starts_with("--");
+    let is_flag = |s: &String| s.starts_with('-');
     let mut stdout = String::new();
     if prog == "pack" && sub == "build" {
         let ordinal = {
@@ -70,8 +88,16 @@ fn main() {
             c
         };
         let scripted_fail = std::env::var("VSTUB_PACK_FAIL_SEQ").ok().map(|s| s.split(',').any(|x| x.trim().parse::<u64>().ok() == Some(ordinal))).unwrap_or(false);
-        if let Some(i) = a.iter().position(|t| t == "--path") {
-            if let Some(p) = a.get(i + 1) {
+        // --path <dir> | --path=<dir> | -p <dir>
+        let path_arg: Option<String> = a.iter().enumerate().find_map(|(i, t)| {
+            if t == "--path" || t == "-p" {
+                a.get(i + 1).cloned()
+            } else {
+                t.strip_prefix("--path=").map(String::from)
+            }
+        });
+        if let Some(p) = path_arg.as_ref() {
+            {
                 let bytes: Vec<u8> = p.chars().map(|c| c as u8).collect();
                 let path = PathBuf::from(<std::ffi::OsStr as OsStrExt>::from_bytes(&bytes));
                 extra.insert("path_listing".into(), listing(&path));
@@ -149,7 +175,7 @@ fn main() {
     } else if prog == "docker" && (sub == "logs" || sub == "exec") {
         stdout.push_str("some output\n");
     }
-    let rec = serde_json::json!({"n": n, "prog": prog, "argv": a, "failed": failed, "extra": extra});
+    let rec = serde_json::json!({"n": n, "prog": prog, "argv": a, "argv_raw": raw, "failed": failed, "extra": extra});
     let mut f = std::fs::OpenOptions::new().create(true).append(true).open(&log).expect("log");
     let _ = writeln!(f, "{rec}");
     if failed && extra.get("scripted_pack_failure").is_some() {
